@@ -34,6 +34,9 @@ void upump_sim_mgr_set_faults(struct upump_mgr *mgr, uint32_t spurious_per1024,
  * threads have read (another reader can then have drained it legally); a
  * descriptor with a single reader never shows readable for nothing */
 void upump_sim_mgr_set_spurious_shared_only(struct upump_mgr *mgr, bool on);
+/** ready watchers run in allocation order instead of a seeded order (used when
+ * two executions of one history have to be compared with each other) */
+void upump_sim_mgr_set_fifo(struct upump_mgr *mgr, bool on);
 /** back-end view */
 bool upump_sim_active(struct upump *upump);
 bool upump_sim_ready(struct upump *upump);
